@@ -278,6 +278,8 @@ func Load(repo, goarch string, needCG bool) (*Prog, error) {
 	if needCG {
 		P.CG = vta.CallGraph(P.AllFuncs, cha.CallGraph(prog))
 	}
+	theProg = P
+	deepCloneMemo = map[*ssa.Function]bool{}
 	return P, nil
 }
 
